@@ -90,7 +90,7 @@ def observe(seed, tier):
     def count(k, n=1):
         S["counts"][k] = S["counts"].get(k, 0) + n
     gonorm = common.go_build("gonorm", tags="verif")
-    flows, ntypes, r = progen.gen_flows(seed + 1000, 36 if quick else 160)
+    flows, ntypes, r = progen.gen_flows(seed + 1000, 36 if quick else 400)
     for f in flows:
         f.bare = False   # locals named like generated identifiers are C15's business
     # ---- base mode, twice more in fresh processes, and file by file (C17)
@@ -186,7 +186,7 @@ def observe(seed, tier):
         if not diag or not all(re.search(r"\.go:\d+:\d+", l) for l in diag):
             hit("C13", "cff -auto-instrument failed without positioned diagnostics: %s" % out.strip()[-300:], {"output": out[-3000:], "module": moda})
     # ---- modifier mode on the supported subset (C20), differential with base mode and the model
-    sub, sub_nt, r2 = progen.gen_flows(seed + 2000, 18 if quick else 80, rich=False)
+    sub, sub_nt, r2 = progen.gen_flows(seed + 2000, 18 if quick else 300, rich=False)
     for f in sub:
         f.bare, f.clock = False, False
     modb, gdirb = write_pkg("modes-subbase-%d-%s" % (seed, tier), sub, sub_nt, variants=False)
